@@ -482,8 +482,17 @@ def _nearmiss_case(draw):
       bad_name = draw(st.sampled_from(['a..b', '.a', 'a.', 'a.b.']))
     else:
       bad_name = draw(st.sampled_from(['a/b', 'a/b.c', 's/os.path', 'a.b/c']))
-    form = draw(st.sampled_from(['import %s', 'import %s as z', 'from %s import q']))
-    bad = form % bad_name
+    form = draw(st.sampled_from(['import %s', 'import %s as z', 'from %s import q',
+                                 'from %s import q', 'IMPORTED-NAME', 'IMPORTED-NAME']))
+    if form == 'IMPORTED-NAME':
+      # the name after `from m import` is one identifier: no dots, separators or inner blanks
+      tail = draw(st.sampled_from(['b.c', 'etree.ElementTree', 'b/c', '.b', 'b.', 'b .c', 'b c',
+                                   '1b', 'b-c', 'b, c', '(b)', '*']))
+      bad = 'from %s import %s%s' % (draw(st.sampled_from(['a', 'xml', 'os.path'])), tail,
+                                     draw(st.sampled_from(['', ' as z', '  # comment'])))
+      why = 'imported-name-not-an-identifier'
+    else:
+      bad = form % bad_name
   else:
     if where == 'macro' or where == 'macrodef':
       name = draw(st.sampled_from(['sc/M', 'a/b/mac', 'a.b/K']) if where == 'macro'
